@@ -610,6 +610,7 @@ class JSONWriter(GenericWriter):
 
         self.encoder = fo
         self.encoder.configure(self.schema, self._named_schemas)
+        self._records_written = 0
 
     def write(self, record):
         if self.validate_fn:
@@ -619,8 +620,13 @@ class JSONWriter(GenericWriter):
         write_data(
             self.encoder, record, self.schema, self._named_schemas, "", self.options
         )
+        self._records_written += 1
 
     def flush(self):
+        if self._records_written == 0:
+            # No record, no document: the encoder's grammar has not been
+            # entered and must not be asked to finish a datum
+            return
         self.encoder.flush()
 
 
